@@ -17,25 +17,51 @@ fn std_dir() -> PathBuf {
 pub fn expand() -> Result<(), PathError> {
     let std_dir = std_dir();
 
-    if !std_dir.exists() {
-        ignore_already_exists(fs::create_dir_all(&std_dir))?;
+    // `std_dir` only ever appears through the rename in `expand_into`, so its
+    // existence means a complete expansion.
+    if std_dir.exists() {
+        return Ok(());
+    }
 
-        let lock = veryl_path::lock_dir(&std_dir)?;
+    let base_dir = std_dir.parent().unwrap().to_path_buf();
+    ignore_already_exists(fs::create_dir_all(&base_dir))?;
 
-        for file in Asset::iter() {
-            let content = Asset::get(file.as_ref()).unwrap();
-            let path = std_dir.join(file.as_ref());
+    // Serialize the expansion among processes and re-check under the lock:
+    // another process may have finished it while we were waiting.
+    let lock = veryl_path::lock_dir(&base_dir)?;
+    let ret = if std_dir.exists() {
+        Ok(())
+    } else {
+        expand_into(&base_dir, &std_dir)
+    };
+    veryl_path::unlock_dir(lock)?;
 
-            let parent = path.parent().unwrap();
-            if !parent.exists() {
-                fs::create_dir_all(parent)?;
-            }
+    ret
+}
 
-            fs::write(&path, content.data.as_ref())?;
+/// Expands the embedded files into a scratch directory and publishes it with a
+/// single rename, so that no other process observes a partially written tree.
+fn expand_into(base_dir: &Path, std_dir: &Path) -> Result<(), PathError> {
+    let tmp_dir = base_dir.join(format!(".{STD_HASH}.tmp"));
+
+    // Left over from an interrupted expansion; the lock is held.
+    if tmp_dir.exists() {
+        fs::remove_dir_all(&tmp_dir)?;
+    }
+
+    for file in Asset::iter() {
+        let content = Asset::get(file.as_ref()).unwrap();
+        let path = tmp_dir.join(file.as_ref());
+
+        let parent = path.parent().unwrap();
+        if !parent.exists() {
+            fs::create_dir_all(parent)?;
         }
 
-        veryl_path::unlock_dir(lock)?;
+        fs::write(&path, content.data.as_ref())?;
     }
+
+    fs::rename(&tmp_dir, std_dir)?;
 
     Ok(())
 }
